@@ -118,6 +118,9 @@ def check(run):
         if k % 20 == 7 or (not run.quick and k % 20 == 13):
             N = [66000, 132000, 1050000][(k // 20) % (2 if run.quick else 3)]  # particle counts beyond round internal thresholds
         pos, idx = lattice(rng, N, nmesh, box, clustered=bool(k % 3))
+        if k % 4 == 2:
+            order = np.argsort(idx[:, k % 3], kind='stable')  # array order correlated with position, as in files written slab by slab
+            pos, idx = pos[order], idx[order]
         if conf['kw'].get('kbins') == 'array':
             kN = np.pi * nmesh / box
             conf['kw']['kbins'] = np.array([0.0, 0.21, 0.5, 0.77, 0.93]) * kN
@@ -208,6 +211,29 @@ def check(run):
         nt('other-particles')
         if run.too_many():
             return
+    # particle counts just past internal batch / threshold sizes (2^16, 2^20), not multiples of them, for both mass-assignment
+    # schemes with interlacing and weights: permutation and thread-count invariance
+    sizes = [(2**20 + 300001, 'CIC'), (2**16 + 1, 'CIC'), (2**20 + 300001, 'TSC')] if run.quick else [(2**20 + 300001, 'CIC'), (2**16 + 1, 'CIC'), (2**20 + 300001, 'TSC'), (2**21 + 17, 'CIC'), (3 * 2**20 - 1, 'TSC'), (2**20, 'CIC'), (2**20 + 1, 'CIC')]
+    for N, paste in sizes:
+        conf = dict(nmesh=16, paste=paste, compensated=True, interlaced=True, kw=dict(kbins=5, poles=[0, 2], mubins=2), nthread=4, dtype=np.float32, binning='threshold-sizes')
+        box = 64.0
+        pos, idx = lattice(rng, N, 16, box, clustered=False)
+        # array order correlated with space and weight (as in a file written slab by slab): whatever a batch boundary does to
+        # "the particles at certain indices" then shows as structure, which a random order would average away
+        order = np.argsort(idx[:, 0], kind='stable')
+        pos, idx = pos[order], idx[order]
+        W = (1 + (np.arange(N) * 4) // N).astype(np.float32)
+        desc = dict(nmesh=16, box=box, N=N, paste=paste, compensated=True, interlaced=True, weighted=True, nthread=4, family='threshold sizes, index order = x order')
+        run.progress(desc)
+        run.ev()
+        R0 = safe_power(ps, pos, box, conf, w=W)
+        perm = rng.permutation(N)
+        run.ev()
+        if not compare_tables(run, R0, safe_power(ps, pos[perm], box, conf, w=W[perm]), desc, 'permutation'):
+            run.nt(('threshold', N, paste, 'permutation'))
+        run.ev()
+        if not compare_tables(run, R0, safe_power(ps, pos, box, conf, nthread=16, w=W), dict(desc, other_nthread=16), 'nthread'):
+            run.nt(('threshold', N, paste, 'nthread'))
 
 
 def replay(run, data):
